@@ -5,7 +5,7 @@
    unconditional statements about the model that the correspondence check ties to xDSL. *)
 From Coq Require Import List Arith Bool ZArith.
 From XV Require Import C11.ProofsWL.
-From XV Require Import Base.Show C11.Model C11.IR C11.Enc C11.Proofs C11.ProofsIR C11.ProofsEv C11.ProofsLive.
+From XV Require Import Base.Show C11.Model C11.IR C11.Enc C11.Proofs C11.ProofsIR C11.ProofsEv C11.ProofsLive C11.ProofsInv C11.ProofsTree.
 Arguments ws_c {M} _.
 Arguments ws_inv {M} _.
 Import ListNotations.
@@ -76,27 +76,72 @@ Print Assumptions C11_events_complete_refuted.
 
 (* For every pop policy, walk configuration and pattern set respecting the calls' preconditions,
    every operation a pattern is invoked on is alive (not erased) in the IR state of that moment. *)
-Theorem C11_no_stale : forall (M : Sem) (wf : C M -> Prop) (ip_ok : C M -> ipoint -> Prop),
-  LiveLaws M wf ip_ok ->
+Theorem C11_no_stale : forall (M : Sem) (wf : C M -> Prop) (ip_ok : C M -> ipoint -> Prop)
+  (ins_ok : C M -> list newop -> Prop) (okp : prim -> Prop) (erase_ok : C M -> op -> Prop),
+  LiveLaws M wf ip_ok ins_ok okp erase_ok ->
   forall n fuel cf m pick c s ret,
-  matcher_pre M wf ip_ok m -> wf c ->
+  matcher_pre M wf ip_ok ins_ok okp erase_ok m -> wf c ->
   rewrite_region M true n fuel cf m pick c = Some (s, ret) ->
   forall o c', In (o, c') (ws_inv s) -> In o (alive M c').
 Proof. exact no_stale. Qed.
 Print Assumptions C11_no_stale.
 
-(* For the heap model the structural half of LiveLaws is proved for every primitive (only erase kills
-   operations, and only those of op.walk(); a region-less op's walk is itself; inserted ops are alive
-   when the insertion point exists).  What remains a hypothesis is InvLaws: an invariant `wf` of the
-   heap -- use lists name only live users, the region walk yields only live ops -- preserved by the
-   thirteen primitives (IR tree / use-def consistency, the subject of property C01). *)
-Theorem C11_no_stale_model_partial : forall (wf : cir -> Prop), InvLaws cir_sem wf ->
-  forall n fuel cf m pick c s ret,
-  matcher_pre cir_sem wf cir_ip_ok m -> wf c ->
+(* For the heap model (ProofsLive.v, ProofsInv.v): the structural laws hold for all thirteen primitives
+   (only erase kills operations, and only those of op.walk(); a region-less op's walk is itself;
+   inserted ops are alive), and so does the use-def half of the invariant: UInv = every use names a
+   live user, a use (s,i) of v means operand i of s is v, use lists have no duplicates -- preserved
+   by all thirteen primitives (insert: for operations with new identifiers). *)
+Theorem C11_use_lists_name_live_users_model : forall okp erase_ok p c,
+  UInv c -> prim_side cir_sem cir_ins_ok okp erase_ok p c ->
+  UInv (run_prim cir_sem p c) /\
+  (forall v u, In u (uses cir_sem c v) -> In (fst u) (alive cir_sem c)).
+Proof. exact (fun okp eok p c Hi Hs => conj (uinv_prim okp eok p c Hi Hs) (ui_U c Hi)). Qed.
+Print Assumptions C11_use_lists_name_live_users_model.
+
+(* The tree half (ProofsTree.v): under TInv (parent pointers of live ops / blocks / regions agree with
+   the child lists, children of live ops are live, the owner of the rewritten region is live) the
+   region walk yields only live operations; TInv is preserved by erase (of a live op that does not
+   enclose that owner) and by the eight primitives that do not touch the tree.  NOT done: insert,
+   inline_block, inline_region, move_region_contents_to_new_regions, create_block. *)
+Theorem C11_tree_invariant_model_partial : forall c, TInv c ->
+  (forall rev rf o, In o (walk cir_sem rev rf c) -> In o (alive cir_sem c)) /\
+  (forall p, tree_covered p -> erase_side p c -> TInv (run_prim cir_sem p c)).
+Proof. exact (fun c T => conj (tinv_walk c T) (fun p Hc Hs => tinv_prim_covered p c Hc Hs T)). Qed.
+Print Assumptions C11_tree_invariant_model_partial.
+
+(* Hence, with NO law left as a hypothesis: for pattern sets that only call erase,
+   replace_all_uses_with, replace_uses_with_if, replace_value_with_new_type, insert_block_argument,
+   erase_block_argument and notify_op_modified (plus the greedy applier's DCE erase), every
+   operation a pattern is invoked on is alive -- for the heap model that runs against xDSL. *)
+Theorem C11_no_stale_model_covered : forall n fuel cf m pick c s ret,
+  matcher_pre cir_sem (fun c => UInv c /\ TInv c) cir_ip_ok cir_ins_ok tree_covered cov_erase_ok m ->
+  UInv c /\ TInv c ->
   rewrite_region cir_sem true n fuel cf m pick c = Some (s, ret) ->
   forall o c', In (o, c') (ws_inv s) -> In o (alive cir_sem c').
 Proof.
-  exact (fun wf I => no_stale cir_sem wf cir_ip_ok (live_laws_of cir_sem wf cir_ip_ok cir_struct_laws I)).
+  exact (no_stale cir_sem _ cir_ip_ok cir_ins_ok tree_covered cov_erase_ok
+                  (live_laws_of cir_sem _ cir_ip_ok cir_ins_ok tree_covered cov_erase_ok
+                                cir_struct_laws cir_inv_laws_covered)).
+Qed.
+Print Assumptions C11_no_stale_model_covered.
+
+(* For arbitrary pattern sets (insert, replace, inline_block, ... included) the tree half remains the
+   one hypothesis: some invariant `wfW` under which the region walk yields only live operations and
+   which the primitives preserve (C01's subject). *)
+Theorem C11_no_stale_model_partial : forall (wfW : cir -> Prop),
+  (forall p c, wfW c -> prim_side cir_sem cir_ins_ok (fun _ => True) (fun _ _ => True) p c ->
+               wfW (run_prim cir_sem p c)) ->
+  (forall c rev rf o, wfW c -> In o (walk cir_sem rev rf c) -> In o (alive cir_sem c)) ->
+  forall n fuel cf m pick c s ret,
+  matcher_pre cir_sem (fun c => UInv c /\ wfW c) cir_ip_ok cir_ins_ok (fun _ => True) (fun _ _ => True) m ->
+  UInv c /\ wfW c ->
+  rewrite_region cir_sem true n fuel cf m pick c = Some (s, ret) ->
+  forall o c', In (o, c') (ws_inv s) -> In o (alive cir_sem c').
+Proof.
+  exact (fun wfW Hp Hw =>
+           no_stale cir_sem _ cir_ip_ok cir_ins_ok _ _
+                    (live_laws_of cir_sem _ cir_ip_ok cir_ins_ok _ _ cir_struct_laws
+                                  (cir_inv_laws _ _ wfW Hp Hw))).
 Qed.
 Print Assumptions C11_no_stale_model_partial.
 
@@ -187,7 +232,7 @@ Proof. exact cir_struct_laws. Qed.
 Print Assumptions C11_struct_laws_hold_for_the_model.
 
 Theorem C11_laws_satisfiable :
-  FlagLaws toy_sem /\ LiveLaws toy_sem (fun _ => True) (fun _ _ => True) /\ EvLaws toy_sem.
+  FlagLaws toy_sem /\ LiveLaws toy_sem (fun _ => True) (fun _ _ => True) (fun _ _ => True) (fun _ => True) (fun _ _ => True) /\ EvLaws toy_sem.
 Proof. exact (conj toy_flag_laws (conj toy_live_laws toy_ev_laws)). Qed.
 Print Assumptions C11_laws_satisfiable.
 
